@@ -54,7 +54,9 @@ func checkC05(p *Prog, r *Report) {
 	r.Trusted = []string{"cosmos-sdk store"}
 	m := didRules(p, r, "C05", func(tag string) bool {
 		switch tag {
-		case "store", "life", "seq":
+		// proofbody: a tombstone differs from "absent" only by its non-zero sequence, which is the proof's result — the proof must hand
+		// back the verifier's seq+1 on every key-type path
+		case "store", "life", "seq", "proofbody":
 			return true
 		}
 		return false
